@@ -56,8 +56,11 @@ type Seed struct {
 	Route string // "POST /{ledger}/transactions"
 	Name  string // variant of the route ("postings", "script", …)
 	Req   Req
-	// NDJSON: the body is a stream of JSON documents (import).
+	// NDJSON: the body is a stream of JSON documents (import, streamed JSON bulk).
 	NDJSON bool
+	// JSONStream / TextStream: the body is a streamed bulk (c38stream.go); a text stream
+	// is not JSON: it gets line-level damage instead of JSON-pointer mutations.
+	JSONStream, TextStream bool
 	// Dates: query parameters that the route documents as dates.
 	Dates []string
 	// FilterIn: "body" | "query" | "" — where the filter of the route is, if it has one.
@@ -225,7 +228,7 @@ func c38Seeds(importBody string) []Seed {
 	pv := postingValues("postings.*.")
 	sv, svRaw := scriptVarValues("script.vars.")
 
-	return []Seed{
+	seeds := []Seed{
 		// ---------------- v2 ----------------
 		{API: "v2", Route: "GET /_info", Req: get("/v2/_info")},
 		{API: "v2", Route: "GET /", Name: "list-ledgers", Req: get("/v2", KV{"pageSize", "1"}, KV{"includeDeleted", "false"}, KV{"sort", "id:asc"}), Cursor: "query", Extra: []string{"expand"}},
@@ -366,4 +369,5 @@ func c38Seeds(importBody string) []Seed {
 		{API: "v1", Route: "GET /{ledger}/aggregate/balances", Dates: []string{"pit"}, Extra: []string{"expand", "pit"},
 			Req: get("/l1/aggregate/balances", KV{"address", "alice"}, KV{"useInsertionDate", "true"})},
 	}
+	return append(seeds, streamSeeds()...)
 }
